@@ -583,7 +583,14 @@ pub fn inject(s: &mut Src, base: &Prog, kind: usize) -> Option<Fault> {
                 }
                 "ComparisonNonInteger" => {
                     let op = *s.pick(&["=", "#", "<", "<=", ">", ">="]);
-                    let c = Expr::Bin(op, Box::new(ev(&ha)), Box::new(if s.chance(1, 2) { ev(&hb) } else { ev(&hx) }));
+                    // two arrays: of different types, of the same named type, or the same variable
+                    let (l, r) = match s.below(4) {
+                        0 => (ev(&ha), ev(&hb)),
+                        1 => (ev(&ha), ev(&hx)),
+                        2 => (ev(&hx), ev(&hy)),
+                        _ => (ev(&hx), ev(&hx)),
+                    };
+                    let c = Expr::Bin(op, Box::new(l), Box::new(r));
                     if s.chance(1, 2) {
                         (Stmt::If(c, empty(), None), "comparison requires integer operands".into(), vec![0], false)
                     } else {
@@ -592,8 +599,13 @@ pub fn inject(s: &mut Src, base: &Prog, kind: usize) -> Option<Fault> {
                 }
                 "ArithmeticOperatorNonInteger" => {
                     let op = *s.pick(&["+", "-", "*", "/"]);
+                    let r = match s.below(3) {
+                        0 => ev(&hy),
+                        1 => ev(&ha),
+                        _ => ev(&hb),
+                    };
                     (
-                        Stmt::Assign(hi.clone(), Expr::Bin(op, Box::new(ev(&ha)), Box::new(ev(&hy)))),
+                        Stmt::Assign(hi.clone(), Expr::Bin(op, Box::new(ev(&ha)), Box::new(r))),
                         "arithmetic operation requires integer operands".into(),
                         vec![1],
                         false,
